@@ -18,7 +18,7 @@ PROBES = ["worker_held", "facility_held", "released_on_finish", "absent_holder",
 
 
 def budget(tier):
-    return 8000 if tier == "quick" else 2500000
+    return 12000 if tier == "quick" else 2500000
 
 
 def gen(rng, tier):
